@@ -19,6 +19,7 @@ pub const CLASS_FAIL: &str = "fail_off_fast_path";
 pub const CLASS_UPD: &str = "update_reads_assigned_column";
 
 pub const CLASS_UNZIP: &str = "update_if_partial_schema_panics";
+pub const CLASS_KEYPOS: &str = "key_columns_not_first";
 pub const CLASS_ROWID: &str = "stable_row_id_index_overlap";
 
 /// F18 (C34 class rowid_index_overlapping_ranges) seen through C12's operations: with stable row ids,
@@ -405,6 +406,12 @@ pub async fn merge_case(
                 sink.oracle_fail(Some(CLASS_ROWID), &format!("merge_insert failed: {}", msg.chars().take(200).collect::<String>()), case);
                 return None;
             }
+            if code == 5 && known_key_cols_not_first(st) && !st.full() {
+                // in-place rewrite of a fragment with rows the Merger classified wrongly: not modelled
+                sink.count("merge-in-class-key-columns-not-first-panic");
+                sink.oracle_fail(Some(CLASS_KEYPOS), &format!("merge_insert failed: {}", msg.chars().take(200).collect::<String>()), case);
+                return None;
+            }
             if code == 4 || (code == 5 && !known_update_if_partial(st)) {
                 sink.oracle_fail(None, &format!("merge_insert failed: {}", msg.chars().take(300).collect::<String>()), case);
                 return None;
@@ -420,7 +427,17 @@ pub async fn merge_case(
         }
         Err(c) => format!("inr {}", c),
     };
-    stream.push(coq_in, coq_out, case.clone());
+    // with a partial source schema the rows the Merger misclassifies are rewritten in place by row address;
+    // that part of the class is not modelled
+    let modelled = !(known_key_cols_not_first(st) && !st.full());
+    if modelled {
+        stream.push(coq_in, coq_out, case.clone());
+    } else {
+        sink.count("merge-in-class-not-modelled(key columns not first, partial schema)");
+    }
+    if known_key_cols_not_first(st) {
+        sink.count("merge-in-class-key-columns-not-first");
+    }
     sink.count(&format!("{}:{}", tag, st.label()));
     sink.count(match &outcome {
         Ok(_) => "merge-outcome-ok",
@@ -465,6 +482,8 @@ pub async fn merge_case(
     } else {
         let class = if known_update_if_partial(st) {
             Some(CLASS_UNZIP)
+        } else if known_key_cols_not_first(st) {
+            Some(CLASS_KEYPOS)
         } else if known_fail_off_fast_path(st) {
             Some(CLASS_FAIL)
         } else if known_null_key_source(st, src) {
@@ -511,7 +530,7 @@ pub async fn merge_case(
         if same {
             sink.oracle_ok();
         } else {
-            let class = if known_update_if_partial(st) { Some(CLASS_UNZIP) } else if known_fail_off_fast_path(st) { Some(CLASS_FAIL) } else { None };
+            let class = if known_update_if_partial(st) { Some(CLASS_UNZIP) } else if known_key_cols_not_first(st) { Some(CLASS_KEYPOS) } else if known_fail_off_fast_path(st) { Some(CLASS_FAIL) } else { None };
             case["unindexed"] = json!(format!("{:?}", other.map(|x| x.map(|(r, s)| (fmt_rows(&sort_rows(r)), s)))));
             sink.oracle_fail(class, "merge_insert: indexed and unindexed join paths disagree", case);
         }
